@@ -128,9 +128,12 @@ ServerTokensFed ==
 (* (c) no step once the context is complete                                               *)
 StopsWhenComplete == st.stepsAfterComplete = 0 /\ st.leg <= prov.legs
 (* (d) a request only on an accepted context                                              *)
+(* stated on the server's own words (the result vector of its first ack), not on the client's bookkeeping *)
+FirstAckIdx == CHOOSE j \in 1 .. Len(script) : script[j].k = "ack" /\ \A k \in 1 .. j - 1 : script[k].k # "ack"
 RequestOnlyOnAccepted ==
   \A i \in 1 .. Len(st.sent) : st.sent[i].type = "request" =>
-     (st.sent[i].ctxs \subseteq st.accepted /\ \E j \in 1 .. Len(script) : script[j].k = "ack")
+     /\ \E j \in 1 .. Len(script) : script[j].k = "ack"
+     /\ \A c \in st.sent[i].ctxs : script[FirstAckIdx].res[c + 1] = "acc"
 (* (e) header signing only when both sides advertised it; exactly then for consistent servers *)
 ConsistentServer == \A i, j \in 1 .. Len(script) : (script[i].k = "ack" /\ script[j].k = "ack") => script[i].sign = script[j].sign
 SignHeader ==
